@@ -263,8 +263,11 @@ def r12_e(ctx):
                                 'argument opener / plain text needing balance' % (p, dl), line=0))
     # the reader looks signatures up by command name
     rc = repo.need_func('reader.read_command')
-    uses = [n for n in ast.walk(rc.node) if isinstance(n, ast.Call) and isinstance(n.func, ast.Attribute)
-            and n.func.attr == 'get' and norm(n.func.value) == 'SIGNATURES']
+    cgr = callgraph.graph(ctx)
+    reach_rc = [f for f in cgr.reachable([rc]) if f.module.name == 'reader']
+    uses = [n for f in reach_rc for n in ast.walk(f.node) if (isinstance(n, ast.Call) and isinstance(n.func, ast.Attribute)
+            and n.func.attr == 'get' and norm(n.func.value) == 'SIGNATURES') or (
+                isinstance(n, ast.Subscript) and norm(n.value) == 'SIGNATURES')]
     rr.ob(bool(uses), {'signature_lookup': norm(uses[0]) if uses else None})
     if not uses:
         rr.fail(Finding('R12.e', 'reader', rc.qual, 'no SIGNATURES look-up', 'the command reader no longer consults the '
@@ -393,7 +396,7 @@ def r09_c(ctx):
     """spacer rolled back when nothing attaches -- instance of conservation on the break paths"""
     e = rules_conserve.engine(ctx)
     rr = RuleResult('R09.c', 'a whitespace token read before an argument position is rolled back when no argument '
-                    'follows, and is dropped only when an argument is attached', floor=20)
+                    'follows, and is dropped only when an argument is attached', floor=1)
     hits = [f for f in e.findings.values() if f.kind in ('spacer-dropped', 'unmatched-rollback', 'rollback-of-stored')]
     n = e.discharged.get('rolledback', 0) + e.discharged.get('licensed-spacer', 0)
     rr.instances = n + len(hits)
@@ -493,3 +496,29 @@ def _bool_atoms(t):
     if isinstance(t, ast.UnaryOp) and isinstance(t.op, ast.Not):
         return _bool_atoms(t.operand)
     return [t]
+
+
+def r09_h(ctx):
+    """names are looked up in collections of names, never in a string constant (substring test)"""
+    repo = ctx.repo
+    rr = RuleResult('R09.h', 'a command or environment name is tested for membership in a collection of names, not in a '
+                    'string constant: `name in "abc def"` is a substring test, so every fragment of the listed names '
+                    'matches too', floor=3)
+    for mname in ('reader', 'tokens'):
+        m = repo.modules[mname]
+        for fd in m.functions.values():
+            for n in ast.walk(fd.node):
+                if not (isinstance(n, ast.Compare) and len(n.ops) == 1 and isinstance(n.ops[0], (ast.In, ast.NotIn))):
+                    continue
+                r = n.comparators[0]
+                try:
+                    v = Folder(repo, m).ev(r)
+                except Unfoldable:
+                    continue
+                is_str = isinstance(v, str) and len(v) > 1
+                rr.ob(not is_str, {'function': fd.fq, 'test': norm(n)[:60], 'right_operand': type(v).__name__})
+                if is_str:
+                    rr.fail(Finding('R09.h', mname, fd.qual, n, 'the membership test %s has the string %r on its right: it is '
+                                    'a substring test, so names such as %r match although they are not listed'
+                                    % (norm(n)[:50], v[:30], v[1:3]), line=n.lineno))
+    return rr
